@@ -112,3 +112,25 @@ Fixpoint handle (m : kv) (rs : list rres) (out : bytes) : bytes * kv * term :=
 
 Definition handler_run (m : kv) (segs : list bytes) : bytes * kv * term :=
   handle m (read_all (fixed Release) segs []) [].
+
+(* ---------- well-formed requests: what a client sends (src/net/client.rs, From<Set/Get/Del> for Frame) ---------- *)
+Open Scope Z_scope.
+Inductive req := RqGet (k : bytes) | RqSet (k v : bytes) | RqDel (ks : list bytes).
+
+Definition small (b : bytes) : bool := Z.of_nat (length b) <=? i64_max.
+Definition wf_req (r : req) : bool :=
+  match r with
+  | RqGet k => is_utf8 k && small k
+  | RqSet k v => is_utf8 k && small k && small v
+  | RqDel ks => match ks with [] => false | _ => forallb (fun k => is_utf8 k && small k) ks && (Z.of_nat (S (length ks)) <=? i64_max) end
+  end.
+
+Definition frame_of_req (r : req) : frame :=
+  match r with
+  | RqGet k => Array [Bulk s_GET; Bulk k]
+  | RqSet k v => Array [Bulk s_SET; Bulk k; Bulk v]
+  | RqDel ks => Array (Bulk s_DEL :: map Bulk ks)
+  end.
+Definition cmd_of_req (r : req) : cmd :=
+  match r with RqGet k => CGet k | RqSet k v => CSet k v | RqDel ks => CDel ks end.
+Close Scope Z_scope.
